@@ -16,14 +16,14 @@ for p in props:
     else:
         out.append("| %s | not applicable / not claimed | %s |" % (p['id'], c.get('reason', 'no check built (see section 10 for the plan that was not reached)').replace('|', '/')))
 out.append("\n### 14.2 Defects found by failed obligations, replayed on the real code and repaired (generated from known_findings.jsonl)\n")
-out.append("| property | fix commit | failed obligation (prefix) | what failed |")
+out.append("| property | status / fix commit | failed obligation (prefix) | what failed |")
 out.append("|---|---|---|---|")
 for l in open(os.path.join(root, 'known_findings.jsonl')):
     l = l.strip()
     if not l:
         continue
     k = json.loads(l)
-    out.append("| %s | %s | `%s` | %s |" % (k['property'], k.get('commit', ''), k['obligation'][:90].replace('|', '/'), re.sub(r'^fixed: property=\S+ \S+ ', '', k['what']).replace('|', '/')))
+    out.append("| %s | %s | `%s` | %s |" % (k['property'], ('fixed ' + k['commit']) if k.get('status') == 'fixed' else 'KNOWN (recorded, not repaired)', k['obligation'][:90].replace('|', '/'), re.sub(r'^fixed: property=\S+ \S+ ', '', k['what']).replace('|', '/')))
 out.append("\n### 14.3 Seeded changes (generated from seeded/*/meta.json)\n")
 out.append("Each was produced by a fresh sub-agent that saw only the property text and a scratch worktree, and was confirmed here (compiles, existing tests pass, demo test fails with it and passes without).\n")
 out.append("| seed | caught by | first-shot | first failed obligation now |")
